@@ -1,16 +1,16 @@
-CONSTANT Tier = "neg"
+CONSTANT Tier = "neg2"
 CONSTANT NProc = 3
-CONSTANT Buggy_PickleCarriesHash = TRUE
-CONSTANT Buggy_DigestUsesProcess = TRUE
-CONSTANT Buggy_SetstateByPosition = FALSE
+CONSTANT Buggy_PickleCarriesHash = FALSE
+CONSTANT Buggy_DigestUsesProcess = FALSE
+CONSTANT Buggy_SetstateByPosition = TRUE
 CONSTANT Buggy_ArgsBySetOrder = FALSE
 CONSTANT Buggy_DigestSkipsShared = FALSE
-CONSTANT Buggy_CompiledLosesVars = TRUE
+CONSTANT Buggy_CompiledLosesVars = FALSE
 INIT Init
 NEXT Next
+INVARIANT Inv_EqIsPyEq
 INVARIANT Inv_NoForeignHash
 INVARIANT Inv_HashIsLocal
-INVARIANT Inv_EqIsPyEq
 INVARIANT Inv_LookupFinds
 INVARIANT Inv_CompiledComputes
 INVARIANT Inv_DigestIsStructural
